@@ -6,8 +6,10 @@ package metadata
 
 import (
 	"context"
+	"encoding/json"
 	"errors"
 	"fmt"
+	"reflect"
 	"sort"
 	"strings"
 	"testing"
@@ -590,4 +592,261 @@ func msOpNames(op msOp) (topics, groups []string) {
 		topics = append(topics, op.Names...)
 	}
 	return
+}
+
+// ---------- running an op list on both real stores, observing the real etcd keyspace ----------
+const msSnapshotKey = "/kafscale/metadata/snapshot"
+
+// msEtcdKVs reads every key under /kafscale/ (except the shared metadata snapshot) with
+// its value through the etcd client.
+func (e *msEtcd) kvs(t *testing.T) map[string]string {
+	ctx, cancel := context.WithTimeout(context.Background(), 5*time.Second)
+	defer cancel()
+	resp, err := e.cli.Get(ctx, "/kafscale/", clientv3.WithPrefix())
+	if err != nil {
+		t.Fatalf("etcd scan: %v", err)
+	}
+	out := make(map[string]string, len(resp.Kvs))
+	for _, kv := range resp.Kvs {
+		if string(kv.Key) == msSnapshotKey {
+			continue
+		}
+		out[string(kv.Key)] = string(kv.Value)
+	}
+	return out
+}
+
+type msRun struct {
+	im, et []msRes
+	kvs    []map[string]string // real etcd contents after each op
+}
+
+func msRunBoth(t *testing.T, e *msEtcd, brokers int, ops []msOp) msRun {
+	ctx := context.Background()
+	ims := NewInMemoryStore(msInitial(brokers))
+	ets := e.fresh(t, brokers)
+	var r msRun
+	for _, op := range ops {
+		r.im = append(r.im, msApply(ctx, ims, op))
+		r.et = append(r.et, msApply(ctx, ets, op))
+		r.kvs = append(r.kvs, e.kvs(t))
+	}
+	return r
+}
+
+func msCoqKeys(kvs []map[string]string) string {
+	it := make([]string, len(kvs))
+	for i, m := range kvs {
+		ks := make([]string, 0, len(m))
+		for k := range m {
+			ks = append(ks, k)
+		}
+		sort.Strings(ks)
+		it[i] = cqStrs(ks)
+	}
+	return cqList(it)
+}
+
+// ---------- two-topic isolation scenarios ----------
+// Two live topics X and Y with valid names, regularly chosen so that one name is a strict
+// string prefix of the other (a / a-b / a.b / a_1 / a0 ...), durable state on both (partition
+// growth, next offsets, config, committed offsets), then operations on X only (DeleteTopic,
+// re-create, growth, config, offsets), each followed by a full read-back of Y.
+type msScenario struct {
+	Brokers int      `json:"brokers"`
+	X       string   `json:"x"`
+	Y       string   `json:"y"`
+	Groups  []string `json:"groups"`
+	MaxPart int32    `json:"max_part"`
+	Setup   []msOp   `json:"setup"`
+	Muts    []msOp   `json:"muts"`
+}
+
+// everything the Store interface can say about topic y
+func msScenarioReads(sc msScenario) []msOp {
+	ops := []msOp{{K: "md", Names: []string{sc.Y}}, {K: "fc", Topic: sc.Y}}
+	for p := int32(0); p <= sc.MaxPart; p++ {
+		ops = append(ops, msOp{K: "no", Topic: sc.Y, Part: p})
+		for _, g := range sc.Groups {
+			ops = append(ops, msOp{K: "fo", Group: g, Topic: sc.Y, Part: p}, msOp{K: "lo", Group: g, Topic: sc.Y, Part: p})
+		}
+	}
+	return append(ops, msOp{K: "ls"}, msOp{K: "md"})
+}
+
+// flattened op list; blocks[0] is the baseline read-back of Y, blocks[i] the one after Muts[i-1];
+// mutAt[i] is the index of Muts[i]
+func msScenarioOps(sc msScenario) (ops []msOp, blocks [][2]int, mutAt []int) {
+	ops = append(ops, sc.Setup...)
+	rd := msScenarioReads(sc)
+	blocks = append(blocks, [2]int{len(ops), len(ops) + len(rd)})
+	ops = append(ops, rd...)
+	for _, m := range sc.Muts {
+		mutAt = append(mutAt, len(ops))
+		ops = append(ops, m)
+		blocks = append(blocks, [2]int{len(ops), len(ops) + len(rd)})
+		ops = append(ops, rd...)
+	}
+	return
+}
+
+// a read result restricted to what concerns topic y (listings contain every topic)
+func msAboutTopic(r msRes, y string) msRes {
+	switch r.Kind {
+	case "coffs":
+		out := msRes{Kind: "coffs", Coffs: []msCoff{}}
+		for _, c := range r.Coffs {
+			if c.T == y {
+				out.Coffs = append(out.Coffs, c)
+			}
+		}
+		return out
+	case "meta":
+		out := msRes{Kind: "meta", Metas: []msMeta{}}
+		for _, m := range r.Metas {
+			if m.Name == y {
+				out.Metas = append(out.Metas, m)
+			}
+		}
+		return out
+	}
+	return r
+}
+
+var msPrefixBases = []string{"a", "orders", "t1", "A.b", "x-y", "0"}
+var msPrefixSufs = []string{"-b", ".b", "_1", "0", "-v2", ".dlq", "a", "-", "_", ".", "1", "-0", ".config", "-partitions"}
+
+func msGenScenario(r *vRand) msScenario {
+	base := msPrefixBases[r.Intn(len(msPrefixBases))]
+	long := base + msPrefixSufs[r.Intn(len(msPrefixSufs))]
+	sc := msScenario{Brokers: r.Range(1, 2), X: base, Y: long}
+	switch r.Intn(10) {
+	case 0, 1, 2:
+		sc.X, sc.Y = long, base // the deleted name is the longer one
+	case 3:
+		sc.Y = base + msPrefixSufs[r.Intn(len(msPrefixSufs))] // siblings sharing a prefix
+		sc.X = long
+		if sc.X == sc.Y {
+			sc.Y = base
+		}
+	case 4:
+		sc.X, sc.Y = "ab", "ac" // unrelated
+	}
+	gs := []string{"g1", "g2", sc.X, "offsets"}
+	for i := 0; i < r.Range(1, 2); i++ {
+		sc.Groups = append(sc.Groups, gs[r.Intn(len(gs))])
+	}
+	sc.MaxPart = int32(r.Range(1, 3))
+	nx, ny := int64(r.Range(1, 3)), int64(r.Range(1, 3))
+	mk := func(t string, n int64) []msOp {
+		ops := []msOp{{K: "ct", Topic: t, N: n, RF: 1}}
+		if r.Chance(50) {
+			n += int64(r.Range(1, 2))
+			ops = append(ops, msOp{K: "cp", Topic: t, N: n})
+		}
+		if r.Chance(65) {
+			ops = append(ops, msOp{K: "uc", C: &msCfg{Name: t, Parts: 0, RF: 1, RetMs: int64(r.Range(1, 9) * 1000), RetBytes: -1, Config: [][2]string{{"k", t}}}})
+		}
+		for p := int64(0); p < n; p++ {
+			if r.Chance(75) {
+				ops = append(ops, msOp{K: "uo", Topic: t, Part: int32(p), N: int64(r.Range(0, 90))})
+			}
+			for _, g := range sc.Groups {
+				if r.Chance(50) {
+					ops = append(ops, msOp{K: "co", Group: g, Topic: t, Part: int32(p), N: int64(r.Range(1, 99)), Meta: "m-" + t})
+				}
+			}
+		}
+		return ops
+	}
+	a, b := mk(sc.X, nx), mk(sc.Y, ny)
+	if r.Bool() {
+		a, b = b, a
+	}
+	sc.Setup = append(a, b...)
+	if r.Chance(40) {
+		sc.Setup = append(sc.Setup, msOp{K: "pg", G: msGenGroup(r, msNames{topics: []string{sc.X, sc.Y}}, sc.Groups[0])})
+	}
+	nm := r.Range(1, 4)
+	for i := 0; i < nm; i++ {
+		k := r.Intn(8)
+		if i == 0 && r.Chance(60) {
+			k = 0
+		}
+		switch k {
+		case 0, 1:
+			sc.Muts = append(sc.Muts, msOp{K: "dt", Topic: sc.X})
+		case 2:
+			sc.Muts = append(sc.Muts, msOp{K: "ct", Topic: sc.X, N: int64(r.Range(1, 3)), RF: 1})
+		case 3:
+			sc.Muts = append(sc.Muts, msOp{K: "cp", Topic: sc.X, N: int64(r.Range(2, 6))})
+		case 4:
+			sc.Muts = append(sc.Muts, msOp{K: "uc", C: &msCfg{Name: sc.X, Parts: int32(r.Range(0, 4)), RF: 1, RetMs: 5, RetBytes: 7, Config: [][2]string{}}})
+		case 5:
+			sc.Muts = append(sc.Muts, msOp{K: "uo", Topic: sc.X, Part: int32(r.Range(0, 3)), N: int64(r.Range(100, 200))})
+		case 6:
+			sc.Muts = append(sc.Muts, msOp{K: "co", Group: sc.Groups[0], Topic: sc.X, Part: int32(r.Range(0, 3)), N: int64(r.Range(100, 200)), Meta: "later"})
+		default:
+			sc.Muts = append(sc.Muts, msOp{K: "dg", Group: sc.Groups[0]})
+		}
+	}
+	return sc
+}
+
+// msScenarioOracle checks, on what the real stores did, that no operation on X changed
+// what is read back for Y (both stores), and that in the real etcd keyspace an operation
+// naming topic T never removed or rewrote a key that was last written by an operation
+// naming another topic. Returns (key, description) of the first failure.
+func msScenarioOracle(sc msScenario, run msRun) (string, string) {
+	ops, blocks, mutAt := msScenarioOps(sc)
+	for s, res := range [][]msRes{run.im, run.et} {
+		store := []string{"inmem", "etcd"}[s]
+		base := blocks[0]
+		for bi := 1; bi < len(blocks); bi++ {
+			for k := 0; k < base[1]-base[0]; k++ {
+				want, got := msAboutTopic(res[base[0]+k], sc.Y), msAboutTopic(res[blocks[bi][0]+k], sc.Y)
+				if !reflect.DeepEqual(want, got) {
+					wj, _ := json.Marshal(want)
+					gj, _ := json.Marshal(got)
+					return "other-topic-readback-changed-" + store, fmt.Sprintf("%s store: after %s (an operation on topic %q) the read %s about topic %q changed from %s to %s",
+						store, msCoqOp(ops[mutAt[bi-1]]), sc.X, msCoqOp(ops[base[0]+k]), sc.Y, wj, gj)
+				}
+			}
+		}
+	}
+	owner := map[string]string{}
+	prev := map[string]string{}
+	for i, op := range ops {
+		ts, _ := msOpNames(op)
+		topic, has := "", false
+		if len(ts) == 1 && op.K != "md" {
+			topic, has = ts[0], true
+		}
+		cur := run.kvs[i]
+		for k, v := range prev {
+			nv, still := cur[k]
+			if still && nv == v {
+				continue
+			}
+			if o, owned := owner[k]; has && owned && o != topic {
+				what := "removed"
+				if still {
+					what = "rewrote"
+				}
+				return "etcd-key-of-other-topic-touched", fmt.Sprintf("real etcd: %s (topic %q) %s key %s, which was written for topic %q", msCoqOp(op), topic, what, k, o)
+			}
+		}
+		for k, v := range cur {
+			if pv, was := prev[k]; (!was || pv != v) && has {
+				owner[k] = topic
+			}
+		}
+		for k := range owner {
+			if _, still := cur[k]; !still {
+				delete(owner, k)
+			}
+		}
+		prev = cur
+	}
+	return "", ""
 }
